@@ -52,6 +52,16 @@ Definition normal_invcdf_special (p : xreal) : option xreal :=
   else if xeqf p (XFin 1) then Some (XInf false)
   else match p with XNaN => Some XNaN | _ => None end.
 
+(* :88-89, :100-115 which of Acklam's three rational approximations an interior probability
+   goes through.  plow = 0.02425 and phigh = 1 - plow are untyped constants (phigh = 0.97575
+   exactly); the comparisons p < plow and phigh < p are float64 comparisons against the nearest
+   doubles, whose exact values are these rationals. *)
+Definition acklam_plow : Q := 3494793310839505 # 144115188075855872.     (* float64(0.02425), 2^57 *)
+Definition acklam_phigh : Q := 8788774672813523 # 9007199254740992.      (* float64(0.97575), 2^53 *)
+Inductive invcdf_region := RLow | RCentral | RHigh.
+Definition invcdf_region_of (p : Q) : invcdf_region :=
+  if Qltb p acklam_plow then RLow else if Qltb acklam_phigh p then RHigh else RCentral.
+
 (* ---------- tdist.go ---------- *)
 (* :40-42 Bounds *)
 Definition tdist_bounds : Q * Q := (-(4), 4).
